@@ -18,7 +18,7 @@ EXPLANATION = (
 ASSUMPTIONS = ["detail::condition_variable::wait/wait_until release and re-acquire the lock they are given (C02/C07)",
                "callers of the detail classes pass the lock that protects the semaphore (checked for the public wrappers in R6)"]
 THOROUGH_CONFIGS = [["-UNDEBUG", "-DPIKA_DEBUG"]]
-FLOORS = {"C08.R8": 5, "C08.R1": 14, "C08.R2": 3, "C08.R3": 2, "C08.R4": 6, "C08.R5": 4, "C08.R6": 10, "C08.R7": 8}
+FLOORS = {"C08.R8": 5, "C08.R1": 14, "C08.R2": 3, "C08.R3": 2, "C08.R4": 6, "C08.R5": 4, "C08.R6": 10, "C08.R7": 8, "C08.R10": 3}
 
 CS = "pika::detail::counting_semaphore"
 SS = "pika::detail::sliding_semaphore"
@@ -49,6 +49,10 @@ def run(rep, tier):
                        "max_difference_ > lower_limit_, parks in cond_.wait on every turn and re-tests after every wake-up; try_wait succeeds exactly when "
                        "the limit is inside the window and never blocks otherwise; signal never lowers lower_limit_; the wake loops of both "
                        "semaphores stop early only when notify_one found nobody waiting")
+    rep.rule("C08.R10", "K4 (freshness of a blocked waiter's test): a loop that parks the caller in cond_.wait / wait_until gives up the lock while it is parked, so everything the "
+             "loop's exit test reads from the semaphore (value_, lower_limit_, max_difference_) is read again on every turn: the test mentions no local that was computed from a "
+             "member before the loop (set_max_difference / signal / release change the members while the waiter is blocked; a waiter that judges wake-ups by a copy taken on "
+             "entry stays blocked although it is within the configured distance, or proceeds although it is not)")
     rep.rule("C08.R6", "K8: public wrappers lock mtx_ and forward; sync_wait stores its result before sem.release()")
 
     F = facts(rep, lib("synchronization", "src/detail/counting_semaphore.cpp"), [r"^pika::detail::counting_semaphore::"])
@@ -342,6 +346,42 @@ def run(rep, tier):
     wake_break_rules(rep, [cs["signal"], ss["signal"]])
 
     # R6 wrappers
+    # ---- R10: wait loops test fresh members
+    from engine.kinds import loop_of as _lo10, reaching_defs as _rd10
+    n10 = 0
+    for Fx in (F, G):
+        for fn in Fx.fns:
+            if fn.parent != -1 or fn.pattern:
+                continue
+            parks = [(b, i, e) for b, i, e in fn.all_events() if e.get("k") == "call" and callee_short(e) in ("wait", "wait_until", "wait_for") and e.get("recv") is not None
+                     and P(e["recv"]).startswith("this->cond")]
+            for b, i, e in parks:
+                lp = _lo10(fn, b)
+                if lp is None:
+                    continue
+                n10 += 1
+                stale = None
+                for hb in sorted(lp):
+                    blk = fn.blocks[hb]
+                    if blk.cond is None or not any(t not in lp for _, t, _ in blk.succ):
+                        continue            # not an exit test of the loop
+                    for v in set(re.findall(r"[A-Za-z_]\w*", T(blk.cond))):
+                        for d in _rd10(fn, v, (b, i)):
+                            if d[0] in lp:
+                                continue
+                            de = fn.blocks[d[0]].events[d[1]]
+                            tree = de.get("init") if de.get("k") == "decl" else de.get("rhs")
+                            if tree is not None and "this->" in T(tree):
+                                stale = (v, T(tree), loc_of(de), T(blk.cond))
+                if stale:
+                    rep.bad("C08.R10", fn, loc_of(e), "stale-wait-test:" + fn.qname.rsplit("::", 1)[-1], "%s parks in %s inside a loop whose exit test '%s' uses '%s', computed once "
+                            "before the loop from %s (%s): the members can change while the waiter is parked (the lock is released), the waiter keeps judging wake-ups by the value "
+                            "it saw on entry" % (fn.qname.rsplit("::", 1)[-1], T(e)[:50], stale[3][:80], stale[0], stale[1][:80], stale[2].rsplit("/", 1)[-1]))
+                else:
+                    rep.ok("C08.R10", fn, "%s: the exit test of the loop around %s reads the members on every turn" % (fn.qname.rsplit("::", 1)[-1], T(e)[:40]))
+    if n10 < 3:
+        raise AnalysisBroken("C08.R10: only %d parking loops found in the semaphores" % n10)
+
     D = facts(rep, driver("c08_semaphore.cpp"),
               [r"^pika::counting_semaphore::", r"^pika::sliding_semaphore_var::", r"^pika::sync_wait_detail::sync_wait_receiver_impl::sync_wait_receiver_type::"])
     table = [("pika::counting_semaphore::release", CS + "::signal", ["update"], True),
